@@ -517,7 +517,8 @@ class SingleStepStrategy(object):
                          return None
 
             if select_attr:
-                return select_attr(kind, data, pos, namespaces, variables)
+                return select_attr(kind, data, pos, namespaces, variables) \
+                    or None
 
             return True
 
